@@ -100,7 +100,7 @@ def check_edit(case):
     return out
 
 
-def judge(H, net, rules):
+def _judge(H, net, rules):
     from synkit.CRN.Props import stoich
     from synkit.CRN.Petri import semiflows
 
@@ -178,6 +178,17 @@ def judge(H, net, rules):
         fails=fails,
         transitions=12,
     )
+
+
+def judge(H, net, rules):
+    """analysis must not change the network it analyses"""
+    from mc.checks.c15 import snap
+
+    before = snap(H)
+    out = _judge(H, net, rules)
+    if snap(H) != before:
+        out.fails.append(Fail("analysis_mutates_network", "the network object changed while it was analysed", "unchanged"))
+    return out
 
 
 def subchecks(tier, seed):
